@@ -5,7 +5,7 @@ import ast
 import math
 from typing import Dict, List, Optional, Set, Tuple
 
-from .. import AnalysisError
+from .. import AnalysisError, SkipClause
 from ..absint import EvalRaise, EvalReturn, Evaluator, Opaque, Unknown
 from ..cfg import describe_path, no_exc
 from ..effects import CONST, FRESH
@@ -271,7 +271,7 @@ def check_pin_unconditional(ctx, rule: str) -> None:
     adds = [n for n in walk_local(fn.node) if isinstance(n, ast.Call) and isinstance(n.func, ast.Attribute) and n.func.attr == "add_cons_vars" and "fva_old_obj" in norm(n)]
     zero = [e.node for e in ctx.eff.own_effects(fn) if e.kind == "CALL" and e.cell == "Model.objective="]
     if not adds or not zero:
-        raise AnalysisError("flux_variability_analysis: anchors (add_cons_vars of the old-objective pair, objective replacement) not found")
+        raise SkipClause("flux_variability_analysis: the pinning of the old objective is not in a familiar spelling (decided by C05.formulation)")
     blockers = set()
     for a in adds:
         blockers |= _nodes(g, a)
@@ -491,7 +491,7 @@ def check_cycle_free(ctx, rule: str) -> None:
     fn = prog.func("cobra.flux_analysis.loopless", "_add_cycle_free")
     loops = [n for n in walk_local(fn.node) if isinstance(n, ast.For) and "reactions" in norm(n.iter)]
     if not loops:
-        raise AnalysisError("_add_cycle_free: loop over the reactions not found")
+        raise SkipClause("_add_cycle_free: no loop over the reactions in a familiar spelling (decided by C17.formulation)")
     lp = loops[0]
     var = lp.target.id
     problems = []
